@@ -152,7 +152,7 @@ class Translator:
     def enum_id(self, ecls):
         key = id(ecls)
         if key in self.enum_ids:
-            return self.enum_ids[key]
+            return self.enum_ids[key][0]       # (the class object is kept alive: ids are not reused)
         ident = None
         if self.enum_mod is not None:
             for k, v in vars(self.enum_mod).items():
@@ -167,7 +167,7 @@ class Translator:
             ident = f'{owner}/{ecls.__name__}'
             if ident in self.enum_members and self.enum_members[ident] != members:
                 ident = f'{ident}#{len(self.enum_members)}'
-        self.enum_ids[key] = ident
+        self.enum_ids[key] = (ident, ecls)
         if ident in self.enum_members and self.enum_members[ident] != members:
             self.note(f'enum identifier clash for {ident}')
         self.enum_members[ident] = members
@@ -676,11 +676,13 @@ class Translator:
                     and v.func.value.id not in sc.static and len(v.args) == 1 and not v.keywords \
                     and not isinstance(v.args[0], ast.Starred):
                 return ['append', v.func.value.id, self.dyn(v.args[0], sc)]
-            return ['expr', self.dyn(v, sc)]
+            r = self.ev(v, sc)
+            if isinstance(r, S) and isinstance(r.obj, _LoadedForm):
+                return ['expr', ['loadedForm', r.obj.name_ir]]      # `s.form('1040')` for its effect
+            return ['expr', r.ir if isinstance(r, D) else self.static_to_ir(r.obj, v, sc)]
         if isinstance(s, ast.Assert):
-            if s.msg is not None and not self.harmless_message(s.msg, sc):
-                return uns('assert message')
-            return ['assertS', self.dyn(s.test, sc)]
+            return ['assertS', self.dyn(s.test, sc),
+                    self.dyn(s.msg, sc) if s.msg is not None else ['const', ['none']]]
         if isinstance(s, ast.Continue):
             return ['continueS']
         if isinstance(s, ast.Break):
@@ -703,21 +705,6 @@ class Translator:
             return False
         end = (assign.end_lineno, assign.end_col_offset)
         return all((n.lineno, n.col_offset) >= end for n in loads)
-
-    def harmless_message(self, msg, sc):
-        """assert messages are evaluated only when the assertion fails; accept those that cannot
-        raise or read anything: constants and f-strings over plain local names"""
-        if isinstance(msg, ast.Constant):
-            return True
-        if isinstance(msg, ast.JoinedStr):
-            for p in msg.values:
-                if isinstance(p, ast.Constant):
-                    continue
-                if isinstance(p, ast.FormattedValue) and isinstance(p.value, ast.Name) and p.format_spec is None:
-                    continue
-                return False
-            return True
-        return False
 
     # -------------------------------------------------------------------------------- lines
     def line_body(self, field):
@@ -1069,7 +1056,7 @@ def lean_expr(e):
         return f'(.const {lean_val(e[1])})'
     if k == 'var':
         return f'(.var {lean_str(e[1])})'
-    if k in ('readI', 'readV', 'neg', 'pos', 'not', 'attrFail'):
+    if k in ('readI', 'readV', 'neg', 'pos', 'not', 'attrFail', 'loadedForm'):
         return f'(.{k} {L(e[1])})'
     if k == 'fstr':
         return f'(.fstr {lean_list([L(x) for x in e[1]])})'
@@ -1129,8 +1116,10 @@ def lean_stmt(s):
         return f'(.ifS {lean_expr(s[1])} {lean_block(s[2])} {lean_block(s[3])})'
     if k == 'forS':
         return f'(.forS {lean_strs(s[1])} {lean_expr(s[2])} {lean_block(s[3])})'
-    if k in ('ret', 'expr', 'assertS'):
+    if k in ('ret', 'expr'):
         return f'(.{k} {lean_expr(s[1])})'
+    if k == 'assertS':
+        return f'(.assertS {lean_expr(s[1])} {lean_expr(s[2])})'
     if k == 'append':
         return f'(.append {lean_str(s[1])} {lean_expr(s[2])})'
     if k in ('continueS', 'breakS', 'pass'):
@@ -1259,6 +1248,13 @@ def emit_lean(year_ir, out_dir, nchunks=6):
         lean_list([f'Y{year}.{cid}' for cid, _ in texts]) + f',\n    enums := {enums},\n    globals := Y{year}.globals }}\n\n' + \
         f'def cat{year} : Cat String String String Val String := mkCat year{year}\n\nend HabuVerif.Gen\n'
     written[os.path.join(out_dir, f'Catalogue{year}.lean')] = cat
+    # the catalogue is well formed (instance of the general theorem; Proofs side, not linked into the driver)
+    written[os.path.join(out_dir, f'CatWF{year}.lean')] = \
+        '/- GENERATED by tools/translate.py — do not edit. -/\n' + \
+        f'import HabuVerif.Proofs.DslCatWF\nimport HabuVerif.Gen.Catalogue{year}\n' + \
+        'namespace HabuVerif.Gen\nopen HabuVerif\n\n' + \
+        f'/-- the solver metatheory (stated for every catalogue with `CatWF`) applies to the {year} forms -/\n' + \
+        f'theorem cat{year}_wf : CatWF cat{year} := Dsl.mkCat_wf _\n\nend HabuVerif.Gen\n'
     changed = []
     for path, text in written.items():
         try:
@@ -1319,7 +1315,7 @@ def w_expr(e):
         return ['const'] + w_val(e[1])
     if k == 'var':
         return ['var', w_str(e[1])]
-    if k in ('readI', 'readV', 'neg', 'pos', 'not', 'attrFail'):
+    if k in ('readI', 'readV', 'neg', 'pos', 'not', 'attrFail', 'loadedForm'):
         return [k] + W(e[1])
     if k == 'fstr':
         return ['fstr'] + w_list([W(x) for x in e[1]])
@@ -1379,8 +1375,10 @@ def w_stmt(s):
         return ['ifS'] + w_expr(s[1]) + w_block(s[2]) + w_block(s[3])
     if k == 'forS':
         return ['forS'] + w_strs(s[1]) + w_expr(s[2]) + w_block(s[3])
-    if k in ('ret', 'expr', 'assertS'):
+    if k in ('ret', 'expr'):
         return [k] + w_expr(s[1])
+    if k == 'assertS':
+        return ['assertS'] + w_expr(s[1]) + w_expr(s[2])
     if k == 'append':
         return ['append', w_str(s[1])] + w_expr(s[2])
     if k in ('continueS', 'breakS', 'pass'):
